@@ -203,6 +203,8 @@ def judge(chk, m, r, st):
         st['lapped'] += 1
         if r['ch1'] != r['ch2'] and r['ch1'] and (crossed or m['kind'] == 'X'):
             st['lapped_chchange'][chg] = st['lapped_chchange'].get(chg, 0) + 1
+        if m['half'] in ('10', '01'):
+            st['mixed_lapped'][m['half']] = st['mixed_lapped'].get(m['half'], 0) + 1
         if r['slap'] > 0:
             st['lapped_from_lapout'] += 1
         if r['n1'] != r['n2']:
@@ -211,12 +213,12 @@ def judge(chk, m, r, st):
             st['lap_ran_into_next_link'] += 1
     if r['src'] in ('nosrc', 'zero', 'short', 'openmid'):
         st['source_unjudged'] += 1
-    return (v, oc, bool(crossed), chg, 'lap' if lapped else 'nolap', 'lapout' if r['slap'] else 'decoded')
+    return (v, oc, bool(crossed), chg, 'lap' if lapped else 'nolap', 'lapout' if r['slap'] else 'decoded') + (('halfrate' + m['half'],) if m['half'] in ('10', '01') else ())
 
 
 def new_stats(models):
     return {'machinery': [], 'plain_failures': 0, 'eof_nostate': 0, 'eof_nofollow': 0, 'lapped': 0, 'lapped_chchange': {}, 'lapped_from_lapout': 0,
-            'lapped_blocksize_change': 0, 'lap_ran_into_next_link': 0, 'source_unjudged': 0,
+            'lapped_blocksize_change': 0, 'lap_ran_into_next_link': 0, 'source_unjudged': 0, 'mixed_lapped': {},
             'link_starts': {fm.name: set(fm.start[1:fm.nl]) for fm in models}}
 
 
@@ -247,11 +249,19 @@ def run(tier):
         # half-rate decoding switched on right after open on every replay: the whole product again
         hc, hm = seek_cases(models, rich, 1)
         c2, m2 = cross_cases(models, XPAIRS_THOROUGH, rich, 1)
+        # mixed settings on the two handles of ov_crosslap: '10' = vf1 half rate / vf2 full rate, '01' the other way round
+        for mix in ('10', '01'):
+            c3, m3 = cross_cases(models, XPAIRS_THOROUGH, rich, mix)
+            c2, m2 = c2 + c3, m2 + m3
     else:
         # quick: reduced half-rate product (F2 only: the file whose links differ in channels and short block size; every 3rd target)
         f2 = [m for m in models if m.name == 'F2']
         hc, hm = seek_cases(f2, rich, 1, thin=3)
         c2, m2 = cross_cases(models, (('F2', 'F2'),), rich, 1)
+        # mixed half-rate settings on the two handles (reduced: two file pairs)
+        for mix in ('10', '01'):
+            c3, m3 = cross_cases(models, (('F2', 'F2'), ('F1', 'F2')), rich, mix)
+            c2, m2 = c2 + c3, m2 + m3
     sc, sm, xc, xm = sc + hc, sm + hm, xc + c2, xm + m2
     passes = []
     # the sanitizer passes of the quick tier stop each read-through after 900 samples (the lap region is at most 256); thorough reads to the end everywhere
@@ -281,13 +291,13 @@ def run(tier):
     pick = list(range(0, len(sc), max(1, len(sc) // 8)))[:8]
     chk.cov['samples'] = [{'case': sc[i], 'class': sm[i]['oclass']} for i in pick] + [{'case': xc[i]} for i in range(0, len(xc), max(1, len(xc) // 3))][:3]
     chk.cov.update({'distinct_nontrivial': len(sigs), 'exhaustive': exhaustive, 'passes': passes, 'per_file': per_file,
-                    'seek_cases': len(sc), 'crosslap_cases': len(xc), 'halfrate_cases': len(hc) + len(c2),
+                    'seek_cases': len(sc), 'crosslap_cases': len(xc), 'halfrate_cases': len(hc) + len(c2), 'crosslap_mixed_halfrate_cases': sum(1 for x in m2 if x['half'] in ('10', '01')), 'crosslap_mixed_halfrate_lapped_and_passed': st['mixed_lapped'],
                     'plain_failures_compared': st['plain_failures'], 'legit_eof_nothing_follows': st['eof_nofollow'], 'legit_eof_no_decode_state': st['eof_nostate'],
                     'cases_lapped_and_passed': st['lapped'], 'lapped_across_channel_change': {('more_to_fewer' if k > 0 else 'fewer_to_more'): v for k, v in st['lapped_chchange'].items()},
                     'lapped_from_end_of_stream_lapout': st['lapped_from_lapout'], 'lapped_across_blocksize_change': st['lapped_blocksize_change'],
                     'lap_region_ran_into_next_link': st['lap_ran_into_next_link'], 'lap_source_not_observable': st['source_unjudged'],
                     'rule': 'full product (old-position history) x (target) x (ov_pcm_seek_lap, ov_pcm_seek_page_lap, ov_raw_seek_lap, ov_time_seek_lap, ov_time_seek_page_lap) on F1/F2/F2z '
-                            '+ ov_crosslap over (old position) x (old position) on file pairs, with half-rate decoding off and on (quick: on for a reduced product on F2 only), each as three replays (plain / lapped / lap source) of the real library, once on the plain and once on the ASan build; '
+                            '+ ov_crosslap over (old position) x (old position) on file pairs, with half-rate decoding off and on (quick: on for a reduced product on F2 only) and, for ov_crosslap, with different settings on the two handles (full->half, half->full), each as three replays (plain / lapped / lap source) of the real library, once on the plain and once on the ASan build; '
                             'distinct_nontrivial = distinct (variant, old-position class, crossed a link, channel-count change, lapped or not / EOF kind, source decoded or lapout) signatures of cases that passed'})
     chk.assumptions += [
         'the lap source at a link end / end of file is vorbis_synthesis_lapout() of the old decoder after its last delivered sample (white-box, as the statement allows)',
@@ -302,6 +312,7 @@ def run(tier):
     chk.guard(st['eof_nofollow'] > 0 and st['eof_nostate'] > 0, 'both legitimate OV_EOF exceptions occurred')
     chk.guard(st['plain_failures'] > 0, 'failing plain seeks were compared')
     chk.guard(st['lapped_blocksize_change'] > 0, 'lapped between different short block sizes')
+    chk.guard(st['mixed_lapped'].get('10', 0) > 0 and st['mixed_lapped'].get('01', 0) > 0, 'ov_crosslap between handles with different half-rate settings lapped and passed, both directions')
     return chk.finish()
 
 
